@@ -57,6 +57,7 @@ def cases_for(prop, tier):
         yield {'stack': 'same-uid', 'n': 2}
         if thorough:
             yield {'stack': 'same-uid', 'n': 3}
+        yield {'stack': 'artim-next-to-echo', 'count_all': True}
         yield {'stack': 'rq-repeat', 'times': 3}
         yield {'stack': 'reconfigure'}
     elif prop == 'C17':
@@ -355,6 +356,31 @@ def make(case):
                 sched.spawn(client, 'client-' + 'ABC'[j])
             results['client'] = 'ok'
 
+        elif kind == 'artim-next-to-echo':
+            # a peer connects and never sends anything (ARTIM runs on that connection); meanwhile another association of the
+            # same entity is set up, used and released: the silent connection is still closed when its own ARTIM expires
+            srv = assoc.make_ae('SCP', [IMPL], 16384, [sopclass.verification_scp])
+            net.listen(('srv', 104), e3.serve_ae(srv))
+
+            def silent():
+                end = net.socket()
+                end.name = 'peer'
+                end.connect(('srv', 104))
+                t0 = e3.cur().now
+                got = end.recv(16)
+                results['silent'] = (len(got), round(e3.cur().now - t0, 2))
+                end.close()
+            sched.spawn(silent, 'peer')
+            cae = applicationentity.ClientAE('SCU', [IMPL], 16384).add_scu(sopclass.verification_scu)
+
+            def body(asce):
+                results['echo'] = int(asce.get_scu(VERIF)(97))
+
+            def later():
+                e3.cur().sleep(3.0)
+                run_client(body, cae, {'aet': 'SCP', 'address': 'srv', 'port': 104})()
+            sched.spawn(later, 'client')
+
         elif kind == 'rq-repeat':
             # one entity (with provider services, so that role selection is proposed) requests several associations one after
             # the other from ONE remote-AE configuration dictionary that carries extra user information
@@ -606,6 +632,13 @@ def judge(case, out):
             if sum(1 for c in contents if c.endswith(raw)) != 1:
                 viol.append((sig + ':files', 'after %d stores of one instance UID the directory holds %r; the content of client %s is in %d of them (%s)' % (
                     len(sent), [(nm, len(c)) for nm, c in zip(names, contents)], L, sum(1 for c in contents if c.endswith(raw)), where)))
+    elif kind == 'artim-next-to-echo':
+        if r.get('echo') != 0:
+            viol.append((sig + ':echo', 'echo status %r (%s)' % (r.get('echo'), where)))
+        sl = r.get('silent')
+        if sl is None or sl[0] != 0 or not (9.9 <= sl[1] <= 10.3):
+            viol.append((sig + ':artim', 'a connection on which the peer never sent anything was closed after %r (bytes received by the peer, virtual seconds); '
+                         'ARTIM is 10 s, another association was served in between (%s)' % (sl, where)))
     elif kind == 'rq-repeat':
         from . import ref_pdu
         if r.get('echo') != [0] * case['times']:
